@@ -168,6 +168,26 @@ func (b *builder) add(event Event) {
 	}
 }
 
+// setRequestTrailers records request trailers, if the trace still has its request
+// (it does not once the trace was completed and handed to the collector).
+func (b *builder) setRequestTrailers(trailers http.Header) {
+	b.mu.Lock()
+	defer b.mu.Unlock()
+	if b.trace.Request != nil {
+		b.trace.Request.Trailer = trailers
+	}
+}
+
+// setResponseTrailers records response trailers, if the trace has a response
+// (an operation that is not being traced, or is already completed, has none).
+func (b *builder) setResponseTrailers(trailers http.Header) {
+	b.mu.Lock()
+	defer b.mu.Unlock()
+	if b.trace.Response != nil {
+		b.trace.Response.Trailer = trailers
+	}
+}
+
 func (b *builder) getAndClearLocked() Trace {
 	trace := b.trace
 	b.trace = Trace{} // reset; subsequent calls to add or build ignored
